@@ -251,6 +251,12 @@ static int disasm_pop(
     snprintf(instruction, length, "%s", table_unsp[n].instr);
   }
     else
+  if (opn == 1 && operand_a == 7)
+  {
+    // There is no register past pc to pop into.
+    snprintf(instruction, length, "???");
+  }
+    else
   if (opn == 1)
   {
     snprintf(instruction, length, "%s %s, [%s]",
